@@ -181,7 +181,7 @@ type sworld struct {
 	recovered bool
 }
 
-func (w *sworld) bad(s string) { w.viol[s] = true }
+func (w *sworld) bad(s string) { sched.Own(func() { w.viol[s] = true }) }
 
 var sFullQuery = sidx.QueryRequest{SeriesIDs: []common.SeriesID{1, 2}}
 
@@ -483,7 +483,7 @@ func sidxSetup1(sc scenario, seq *int) sched.Harness {
 		case r == "realscan":
 			threads = append(threads, func() { w.realScan("realscan") })
 		case r == "close":
-			threads = append(threads, func() { w.closed = true; _ = w.x.S.Close() })
+			threads = append(threads, func() { sched.Own(func() { w.closed = true }); _ = w.x.S.Close() })
 		case strings.HasPrefix(r, "intro:"):
 			w.txn, w.steps = parseIntro(r)
 			// the file-producing halves (real Flush / Merge) run here: deterministic, not part of the race
